@@ -9,12 +9,13 @@ import PyGqlModel.Props.C06_inv
 import PyGqlModel.Props.C06_typed
 import PyGqlModel.Props.C06_skip
 import PyGqlModel.Props.C06_input
+import PyGqlModel.Props.C06_ctx
 namespace PyGql.Props.C06
 open PyGql PyGql.Validate PyGql.Validate.Spec
 
 def ProvedTyped : List Rule :=
   [.fieldsOnCorrectType, .scalarLeafs, .knownArgumentNames, .providedRequiredArguments, .fragmentsOnCompositeTypes,
-   .uniqueInputFieldNames]
+   .uniqueInputFieldNames, .knownDirectives]
 def ProvedAll : List Rule := Proved ++ ProvedTyped
 
 def SpecAll (r : Rule) (s : SchemaD) (d : Doc) : Prop :=
@@ -25,6 +26,7 @@ def SpecAll (r : Rule) (s : SchemaD) (d : Doc) : Prop :=
   | .providedRequiredArguments => Spec.providedRequiredArguments s d
   | .fragmentsOnCompositeTypes => Spec.fragmentsOnCompositeTypes s d
   | .uniqueInputFieldNames => Spec.uniqueInputFieldNames d
+  | .knownDirectives => Spec.knownDirectives s d
   | r => SpecOf r s d
 
 theorem rule_iff_all (s : SchemaD) (fx : Fixes) (d : Doc) (r : Rule) (hr : r ∈ ProvedAll) :
@@ -35,20 +37,21 @@ theorem rule_iff_all (s : SchemaD) (fx : Fixes) (d : Doc) (r : Rule) (hr : r ∈
     simp only [Proved, List.mem_cons, List.not_mem_nil, or_false] at hr
     rcases hr with rfl | rfl | rfl | rfl | rfl | rfl | rfl | rfl | rfl | rfl <;> exact this
   · simp only [ProvedTyped, List.mem_cons, List.not_mem_nil, or_false] at hr
-    rcases hr with rfl | rfl | rfl | rfl | rfl | rfl
+    rcases hr with rfl | rfl | rfl | rfl | rfl | rfl | rfl
     · exact rule_fields_on_correct_type_iff s fx d
     · exact rule_scalar_leafs_iff s fx d
     · exact rule_known_argument_names_iff s fx d
     · exact rule_provided_required_arguments_iff s fx d
     · exact rule_fragments_on_composite_types_iff s fx d
     · exact rule_unique_input_field_names_iff s fx d
+    · exact rule_known_directives_iff s fx d
 
-/-- **verdict_iff** for the conjunction of the 16 rules proved -/
+/-- **verdict_iff** for the conjunction of the 17 rules proved -/
 theorem verdict_iff_all_partial (s : SchemaD) (fx : Fixes) (d : Doc) :
     (∀ r ∈ ProvedAll, Silent s fx r d) ↔ (∀ r ∈ ProvedAll, SpecAll r s d) :=
   forall_congr' fun r => forall_congr' fun hr => rule_iff_all s fx d r hr
 
-/-- **attribution** over the 16 rules proved (on the rules run alone; see `attribution_partial`) -/
+/-- **attribution** over the 17 rules proved (on the rules run alone; see `attribution_partial`) -/
 theorem attribution_all_partial (s : SchemaD) (fx : Fixes) (d : Doc) (r : Rule) (hr : r ∈ ProvedAll)
     (hbad : ¬ SpecAll r s d) (hothers : ∀ r' ∈ ProvedAll, r' ≠ r → SpecAll r' s d) :
     0 < E (alone s fx r d) ∧ ∀ r' ∈ ProvedAll, r' ≠ r → E (alone s fx r' d) = 0 := by
@@ -58,7 +61,7 @@ theorem attribution_all_partial (s : SchemaD) (fx : Fixes) (d : Doc) (r : Rule) 
 theorem typedNodes_perm (s : SchemaD) {d d' : Doc} (h : d.defs.Perm d'.defs) (p : Node × View) :
     p ∈ typedNodes s d ↔ p ∈ typedNodes s d' := (h.flatMap_right _).mem_iff
 
-/-- **perm_definitions** for all 16 rules proved -/
+/-- **perm_definitions** for all 17 rules proved -/
 theorem perm_definitions_all_partial (s : SchemaD) (fx : Fixes) {d d' : Doc} (h : d.defs.Perm d'.defs) (r : Rule)
     (hr : r ∈ ProvedAll) : Silent s fx r d ↔ Silent s fx r d' := by
   rw [rule_iff_all s fx d r hr, rule_iff_all s fx d' r hr]
@@ -75,7 +78,9 @@ theorem perm_definitions_all_partial (s : SchemaD) (fx : Fixes) {d d' : Doc} (h 
       constructor
       · rintro ⟨_, H⟩; exact ⟨hP _, fun n ⟨x, hx, hm⟩ => H n ⟨x, h.mem_iff.mpr hx, hm⟩⟩
       · rintro ⟨_, H⟩; exact ⟨hP _, fun n ⟨x, hx, hm⟩ => H n ⟨x, h.mem_iff.mp hx, hm⟩⟩
-    rcases hr with rfl | rfl | rfl | rfl | rfl | rfl
+    have hg : ∀ {X : Type} (down : Node → X → X) (x0 : X) (p : Node × X), p ∈ gnDoc down x0 d ↔ p ∈ gnDoc down x0 d' :=
+      fun down x0 p => (h.flatMap_right _).mem_iff
+    rcases hr with rfl | rfl | rfl | rfl | rfl | rfl | rfl
     · simp only [SpecAll, Spec.fieldsOnCorrectType, hm]
     · simp only [SpecAll, Spec.scalarLeafs, hm]
     · simp only [SpecAll, Spec.knownArgumentNames, hm]
@@ -83,6 +88,7 @@ theorem perm_definitions_all_partial (s : SchemaD) (fx : Fixes) {d d' : Doc} (h 
     · simp only [SpecAll, Spec.fragmentsOnCompositeTypes]
       exact and_congr (hnodes _ (fun _ => by simp)) (hnodes _ (fun _ => by simp))
     · exact hnodes _ (fun _ => by simp)
+    · simp only [SpecAll, Spec.knownDirectives, hg]
 
 /-- every rule of the chain is either proved or listed in `Spec.Unproved` -/
 theorem proved_all_or_listed : ∀ r ∈ Rule.all, r ∈ ProvedAll ∨ r.name ∈ Spec.Unproved := by decide
